@@ -312,31 +312,73 @@ def r3(ctx):
     w = ctx.func(W)
     cfg = ctx.cfg(w)
     gt_stores = [s for s in util.store_sites(w.node) if s.kind == "subscript" and util.const_key(s.target) == "GT"]
+    from sa import pathfx
+
+    class _Get(ast.NodeTransformer):
+        # T.get(k) and T[k] name the same table entry
+        def visit_Call(self, node):
+            self.generic_visit(node)
+            if isinstance(node.func, ast.Attribute) and node.func.attr == "get" and len(node.args) == 1 and not node.keywords:
+                return ast.Subscript(value=node.func.value, slice=node.args[0], ctx=ast.Load())
+            return node
+
+    def _c(e):
+        return _Get().visit(pathfx._clone(e))
+
     for s in gt_stores:
-        ga = guard_atoms(cfg, cfg.node_of(s.stmt))
-        differs = [t for t, p in ga if " == " in t and not p and "gt_type" in t]
-        inmap = any(t.startswith("pos in ") and p for t, p in ga)
+        # along every path from the head of the per-sample loop through the store (locals replaced by what they hold
+        # on that path): the stored alleles are those of a table entry NEW, the path has established that the entry
+        # exists and differs from the genotype OLD the call had, and exactly one GenotypeChange(sample, chromosome, .,
+        # OLD, NEW) is appended next to it
         block = s.stmt.parent
         appends = [c for c in ast.walk(block) if isinstance(c, ast.Call) and isinstance(c.func, ast.Attribute) and c.func.attr == "append" and u(c.func.value) == "genotype_changes" and c.args and isinstance(c.args[0], ast.Call) and u(c.args[0].func) == "GenotypeChange"]
-        ok = bool(differs) and inmap and len(appends) == 1 and appends[0] in list(ast.walk(block))
+        ok = len(appends) == 1
         same_block = ok and _stmt_parent(appends[0]) is block
         detail = ""
         if ok and same_block:
-            gc = appends[0].args[0]
-            newgt = u(gc.args[4]) if len(gc.args) >= 5 else None
-            oldgt = u(gc.args[3]) if len(gc.args) >= 5 else None
-            stored = u(s.value)
-            # the sample named in the entry is the sample whose call is stored to: the loop variable that subscripts record.samples
             lp_ = s.stmt
             while lp_ is not None and not isinstance(lp_, ast.For):
                 lp_ = getattr(lp_, "parent", None)
-            loopvar = u(lp_.target) if lp_ is not None else None
-            calldef = util.single_def(w.node, u(s.target.value)) if isinstance(s.target.value, ast.Name) else None
-            same_sample = loopvar is not None and u(gc.args[0]) == loopvar and calldef is not None and u(calldef) == "record.samples[%s]" % loopvar
-            ok = newgt is not None and newgt in stored and oldgt == "gt_type" and same_sample and u(gc.args[1]) == "chromosome"
-            if not same_sample:
-                detail = " (entry names sample `%s`, the store goes to record.samples[%s])" % (u(gc.args[0]), loopvar)
-            detail = " (old=%s new=%s stored=%s)" % (oldgt, newgt, stored)
+            astmt = appends[0]
+            while not isinstance(astmt, ast.stmt):
+                astmt = astmt.parent
+            last = astmt if astmt.lineno > s.stmt.lineno else s.stmt
+            try:
+                sums = pathfx.summaries(cfg, src=cfg.node_of(lp_), dst=cfg.node_of(last)) if lp_ is not None else []
+            except OverflowError:
+                sums = []
+            if not sums:
+                ctx.ob(w.qual, "gt-change-listed:%s" % u(s.target), None, w.loc(s.stmt), "cannot enumerate the paths from the per-sample loop to the GT store")
+                continue
+            loopvar = u(lp_.target)
+            for ps in sums:
+                st = [e for e in ps.effects if e[0] == "store" and e[3] is s.stmt]
+                ap = [e for e in ps.effects if e[0] == "call" and e[3] is astmt]
+                if len(st) != 1 or len(ap) != 1 or not ap[0][1].args or len(ap[0][1].args[0].args) < 5:
+                    ok = False
+                    detail = " (the store and the append are not on one path)"
+                    break
+                gc = ap[0][1].args[0]
+                callv = u(st[0][1].value)
+                OLD = "genotype_code(%s['GT'])" % callv
+                newgt, oldgt, stored = u(_c(gc.args[4])), u(_c(gc.args[3])), u(_c(st[0][2]))
+                ga = {(u(_c(ast.parse(t, mode="eval").body)) if not t.startswith("<") else t, p_) for t, p_ in ps.atoms}
+                # the old genotype is read from the call before the store overwrites it
+                raw = appends[0].args[0].args[3]
+                if isinstance(raw, ast.Name):
+                    old_before = all(d.lineno < s.stmt.lineno for d, v in util.assignments_to(w.node, raw.id))
+                else:
+                    old_before = astmt.lineno < s.stmt.lineno
+                differs = any((not p_) and t in ("%s == %s" % (newgt, OLD), "%s == %s" % (OLD, newgt)) for t, p_ in ga)
+                ne = _c(gc.args[4])
+                inmap = isinstance(ne, ast.Subscript) and (("%s in %s" % (u(ne.slice), u(ne.value)), True) in ga or ("%s is None" % newgt, False) in ga or ("None is %s" % newgt, False) in ga)
+                same_sample = u(gc.args[0]) == loopvar and callv == "record.samples[%s]" % loopvar
+                ok = ("%s.as_vector()" % newgt) in stored and oldgt == OLD and old_before and differs and inmap and same_sample and u(gc.args[1]) == "chromosome"
+                detail = " (old=%s new=%s stored=%s%s%s)" % (oldgt, newgt, stored, "" if differs else "; no `new != old` guard", "" if inmap else "; not guarded by membership in the table")
+                if not same_sample:
+                    detail += " (entry names sample `%s`, the store goes to %s)" % (u(gc.args[0]), callv)
+                if not ok:
+                    break
         ctx.ob(w.qual, "gt-change-listed:%s" % u(s.target), ok and same_block, w.loc(s.stmt), "the GT store is guarded by `new != old` and paired with one GenotypeChange(sample, chromosome, variant, old, new) entry%s" % detail if ok and same_block else "a GT store is not paired with exactly one GenotypeChange entry under the `!=` guard%s" % detail)
     appends_all = [c for c in ctx.prog.calls_in(w.node) if isinstance(c.func, ast.Attribute) and c.func.attr == "append" and u(c.func.value) == "genotype_changes"]
     for a in appends_all:
